@@ -265,6 +265,10 @@ def _reassemble_functional(ck, ex, finals, cell, buf, timeout, timer_items):
         for k, q in s.env.get('queues', {}).items():
             sq = q
         is_single = ex.check(s.pc, [single])[0] != 'unsat' and ex.check(s.pc, [z3.Not(single)])[0] == 'unsat'
+        if not is_single and not (len(delivered) == 1 and not inserts and not removes):
+            # a path that delivers nothing (or touches the pending map) must not be taken by an unfragmented datagram: such a frame
+            # is delivered as it is, whatever is pending under its id ("never disturb ... later frames that reuse an id")
+            ex.prove(s, 'C11/reassemble/single-fragment-delivered-whatever-is-pending', z3.Not(z3.And(z3.UGE(buf.len, BV(4, 64)), single)))
         if is_single:
             ex.prove(s, 'C11/reassemble/single-fragment-delivered-once', len(delivered) == 1)
             if delivered:
@@ -506,6 +510,8 @@ def replay_plan(ob):
                 return 'fragment', case, lambda o: (not o.get('panicked')) and o.get('before') and o['before'][0][2] != dg[2] and o['after'] != o['before']
             if 'malformed-header-creates-no-entry' in lab:
                 return 'fragment', case, lambda o: (not o.get('panicked')) and len(o['after']) > len(o['before']) and not (dg[3] < dg[2] <= 127)
+            if 'single-fragment-delivered-whatever-is-pending' in lab:
+                return 'fragment', case, lambda o: (not o.get('panicked')) and len(dg) >= 4 and dg[2] == 1 and dg[3] == 0 and o.get('frame') != dg[4:].hex()
             if 'single-fragment' in lab:
                 return 'fragment', case, lambda o: (not o.get('panicked')) and (o.get('frame') != dg[4:].hex() or o['after'] != o['before'])
             if 'incomplete-yields-no-frame' in lab or 'no-removal-when-incomplete' in lab:
